@@ -156,13 +156,21 @@ Example ex_evict :
   Some ([Done (RPrivate KCacheable 2); Done (RPrivate KNoStore 3)], 3, 0, None).
 Proof. vm_compute. reflexivity. Qed.
 
-(* the hypothesis of C05_everyone_answered is needed: entry removed under a pending
-   revalidation (that is property C09's case), or a body cut by the origin -> 502 *)
-Example ex_fault_needed :
+(* entry removed under a pending revalidation: since the repair of C09 (a cache-side failure
+   takes the ErrNotCacheable route) the callers fetch for themselves instead of getting 502 *)
+Example ex_evicted_under_revalidation :
   outcome Stale
     [Arrive 0; LeaderLookup; Arrive 1; Evict; OriginAnswer KNotModified; LeaderStore; FlightReturn;
-     Respond 0; Respond 1] [0; 1] =
-  Some ([Done RError; Done RError], 1, 1, None).
+     FollowerFallback 0 KCacheable; FollowerFallback 1 KCacheable; Respond 0; Respond 1] [0; 1] =
+  Some ([Done (RPrivate KCacheable 2); Done (RPrivate KCacheable 3)], 3, 1, None).
+Proof. vm_compute. reflexivity. Qed.
+
+(* the hypothesis of C05_everyone_answered is needed: a body cut by the origin is relayed as it is *)
+Example ex_fault_needed :
+  outcome Cold
+    [Arrive 0; LeaderLookup; OriginAnswer KAbortBody; LeaderStore; FlightReturn;
+     FollowerFallback 0 KAbortBody; Respond 0] [0] =
+  Some ([Done (RPrivate KAbortBody 2)], 2, 0, None).
 Proof. vm_compute. reflexivity. Qed.
 
 (* progress is not vacuous: a follower parked in Do behind a disconnected leader *)
